@@ -606,6 +606,9 @@ pub enum TAct {
     SendUsr2,
     /// `mark T $?; return 7` - only ever triggered inside a function
     Return,
+    /// `mark T $?; kill -s USR2 $$; (mark S; mark S)` - the action forks a subshell while USR2 is
+    /// caught but not yet handled: the subshell must not run (or keep) the parent's USR2 trap
+    SendUsr2Sub,
 }
 
 #[derive(Clone, Debug, PartialEq, Eq, Hash, Serialize, Deserialize)]
@@ -634,7 +637,9 @@ fn check_chain(c: &ChainCase) -> Outcome {
         TAct::Plain => "mark T $?",
         TAct::SendUsr2 => "mark T $?; kill -s USR2 $$",
         TAct::Return => "mark T $?; return 7",
+        TAct::SendUsr2Sub => "mark T $?; kill -s USR2 $$; (mark S; mark S)",
     };
+    let send2 = matches!(c.t_action, TAct::SendUsr2 | TAct::SendUsr2Sub);
     let mut script = format!("trap '{t_text}' USR1\ntrap 'mark U $?' USR2\n");
     if c.t_action == TAct::Return {
         script.push_str("h1() { kill -s USR1 $$; mark X; }\nh2() { (kill -s USR1 $$; kill -s USR2 $$); mark X; }\nh3() { (kill -s USR2 $$; kill -s USR1 $$); mark X; }\n");
@@ -665,7 +670,7 @@ fn check_chain(c: &ChainCase) -> Outcome {
                 t += 1;
                 match c.t_action {
                     TAct::Plain => script.push_str("kill -s USR1 $$\n"),
-                    TAct::SendUsr2 => {
+                    TAct::SendUsr2 | TAct::SendUsr2Sub => {
                         script.push_str("kill -s USR1 $$\n");
                         u += 1;
                     }
@@ -681,7 +686,7 @@ fn check_chain(c: &ChainCase) -> Outcome {
                 match c.t_action {
                     TAct::Plain => script.push_str(if rev { "(kill -s USR2 $$; kill -s USR1 $$)\n" } else { "(kill -s USR1 $$; kill -s USR2 $$)\n" }),
                     // two USR2 deliveries could coalesce: send USR1 only, the action sends USR2
-                    TAct::SendUsr2 => script.push_str("(kill -s USR1 $$)\n"),
+                    TAct::SendUsr2 | TAct::SendUsr2Sub => script.push_str("(kill -s USR1 $$)\n"),
                     TAct::Return => script.push_str(if rev { "h3\n" } else { "h2\n" }),
                 }
                 status = if c.t_action == TAct::Return { None } else { Some(0) };
@@ -693,7 +698,7 @@ fn check_chain(c: &ChainCase) -> Outcome {
         script.push_str("kill -s USR1 $$\n");
         deliveries += 1;
         t += 1;
-        if c.t_action == TAct::SendUsr2 {
+        if send2 {
             u += 1;
         }
         segs.push((t, u, None));
@@ -760,7 +765,7 @@ fn check_chain(c: &ChainCase) -> Outcome {
                 return Outcome::fail(ctx(format!("action {} printed $?={} but $? on entry was {}: {got:?}", g.0, g.2, g.1)));
             }
         }
-        if c.t_action == TAct::SendUsr2 {
+        if send2 {
             // USR2 arrives while the USR1 action runs: its action is due at the boundary right after it
             for w in seq.chunks(2) {
                 if !(w.len() == 2 && w[0].0 == "T" && w[1].0 == "U") {
@@ -783,9 +788,31 @@ fn check_chain(c: &ChainCase) -> Outcome {
     if c.t_action != TAct::Return && r.status != 0 {
         return Outcome::fail(ctx(format!("final status {} expected 0", r.status)));
     }
+    // subshells: they only ever run `kill` or the two S marks; a trap action of the parent running
+    // in a child means a command trap survived the subshell entry (or a delivery was duplicated)
+    let mut per_child: std::collections::BTreeMap<i32, Vec<&str>> = Default::default();
+    for e in r.trace.iter().filter(|e| e.pid != r.main_pid) {
+        per_child.entry(e.pid).or_default().push(e.args[0].as_str());
+    }
+    for (pid, names) in &per_child {
+        if names.iter().any(|n| *n != "S") {
+            return Outcome::fail(ctx(format!("subshell {pid} ran {names:?}: a trap action of the parent ran inside a subshell (command traps are reset on subshell entry; each delivery runs its action once, in the process that received it)")));
+        }
+        if c.t_action == TAct::SendUsr2Sub && names.len() != 2 {
+            return Outcome::fail(ctx(format!("subshell {pid} ran {names:?}, expected its two marks")));
+        }
+    }
+    if c.t_action == TAct::SendUsr2Sub && per_child.len() as u32 != segs.iter().map(|s| s.0).sum::<u32>() {
+        return Outcome::fail(ctx(format!("{} subshells of the USR1 action left a trace, expected one per delivery: {:?}", per_child.len(), per_child)));
+    }
     let both = c.steps.iter().any(|s| matches!(s, CStep::KillBoth | CStep::KillBothRev));
     Outcome::pass(deliveries > 0)
-        .class(match c.t_action { TAct::Plain => "chain:plain", TAct::SendUsr2 => "chain:signal-during-action", TAct::Return => "chain:action-returns" })
+        .class(match c.t_action {
+            TAct::Plain => "chain:plain",
+            TAct::SendUsr2 => "chain:signal-during-action",
+            TAct::Return => "chain:action-returns",
+            TAct::SendUsr2Sub => "chain:subshell-forked-while-a-signal-is-pending",
+        })
         .class_if(both, "two-signals-pending-at-one-boundary")
         .class_if(last_kill, "delivery-by-last-command")
 }
@@ -879,7 +906,7 @@ pub fn run(ctx: &Ctx, st: &mut Stats) {
     CHAIN.run_random(ctx, st, cases, || {
         (
             prop::collection::vec(arb_cstep(), 1..7),
-            prop::sample::select(vec![TAct::Plain, TAct::SendUsr2, TAct::Return]),
+            prop::sample::select(vec![TAct::Plain, TAct::SendUsr2, TAct::Return, TAct::SendUsr2Sub]),
             prop::bool::weighted(0.3),
             prop::option::weighted(0.5, any::<u64>()),
         )
